@@ -215,3 +215,290 @@ func checkPlatformRange(w *World, r *Report) {
 		r.OK("platformrange", key, w.Pos(fn.Pos()), "no platform id is rejected")
 	}
 }
+
+// format4Loops: the segment loop of decodeFormat4 and the loops inside it
+// that store into the result map.
+func format4Loops(fn *ssa.Function) (outer *natLoop, inner []*natLoop) {
+	loops := naturalLoops(fn)
+	hasUpdate := func(l *natLoop) bool {
+		for b := range l.body {
+			for _, in := range b.Instrs {
+				if _, ok := in.(*ssa.MapUpdate); ok {
+					return true
+				}
+			}
+		}
+		return false
+	}
+	for _, l := range loops {
+		if !hasUpdate(l) {
+			continue
+		}
+		var in []*natLoop
+		for _, m := range loops {
+			if m != l && l.body[m.head] && len(m.body) < len(l.body) && hasUpdate(m) {
+				in = append(in, m)
+			}
+		}
+		if len(in) > len(inner) {
+			outer, inner = l, in
+		}
+	}
+	return
+}
+
+// valueFlow: the values v is computed from by conversions, arithmetic and
+// phis; loads, calls and parameters are leaves (index computations of a load
+// are not followed).
+func valueFlow(v ssa.Value) map[ssa.Value]bool {
+	seen := map[ssa.Value]bool{}
+	var visit func(x ssa.Value)
+	visit = func(x ssa.Value) {
+		if x == nil || seen[x] {
+			return
+		}
+		seen[x] = true
+		switch y := x.(type) {
+		case *ssa.Convert:
+			visit(y.X)
+		case *ssa.ChangeType:
+			visit(y.X)
+		case *ssa.BinOp:
+			visit(y.X)
+			visit(y.Y)
+		case *ssa.Phi:
+			for _, e := range y.Edges {
+				visit(e)
+			}
+		case *ssa.UnOp:
+			if y.Op != token.MUL {
+				visit(y.X)
+			}
+		}
+	}
+	visit(v)
+	return seen
+}
+
+// checkSegDelta: the format 4 specification computes the glyph of a code as
+// (code + idDelta) mod 65536 for a segment without glyph id array, and as
+// (array value + idDelta) mod 65536 for a non-zero array value otherwise.
+// The rule binds idDelta by its role (the per-segment array element that is
+// added to the code in one of the mapping loops) and requires (a) that the
+// value stored by every mapping loop is computed from that element, and (b)
+// that no sum involving it is compared or stored before it has been reduced
+// to 16 bits.
+func checkSegDelta(w *World, r *Report) {
+	r.Rule("segdelta: in decodeFormat4 the per-segment array element that one mapping loop adds to the code (the idDelta, bound by this role) takes part in the value every mapping loop stores into the map (array values get the idDelta added too) || mod65536: every sum that involves the idDelta is reduced to a 16-bit type before it is compared with anything or stored (glyph ids wrap modulo 65536)")
+	fn := w.Func("cmap.decodeFormat4")
+	if fn == nil {
+		r.Fatal("cmap.decodeFormat4 does not resolve")
+		return
+	}
+	name := "cmap.decodeFormat4"
+	outer, inner := format4Loops(fn)
+	if outer == nil || len(inner) < 2 {
+		r.Fail("segdelta", r.MkKey("segdelta", name, "mapping loops"), w.Pos(fn.Pos()), "the segment loop with its two mapping loops (delta form, glyph id array) was not found", nil)
+		return
+	}
+	// the segment counter: a phi of the outer loop's head
+	counters := map[ssa.Value]bool{}
+	for _, in := range outer.head.Instrs {
+		if ph, ok := in.(*ssa.Phi); ok {
+			counters[ph] = true
+		}
+	}
+	perSegment := func(v ssa.Value) (ssa.Value, bool) {
+		ld, ok := v.(*ssa.UnOp)
+		if !ok || ld.Op != token.MUL {
+			return nil, false
+		}
+		ia, ok := ld.X.(*ssa.IndexAddr)
+		if !ok {
+			return nil, false
+		}
+		idx := ia.Index
+		if cv, ok := idx.(*ssa.Convert); ok {
+			idx = cv.X
+		}
+		if !counters[idx] {
+			return nil, false
+		}
+		return ia.X, true
+	}
+	type upd struct {
+		mu   *ssa.MapUpdate
+		flow map[ssa.Value]bool // value and deciding conditions
+		vals map[ssa.Value]bool // value only
+	}
+	var upds []upd
+	cc := controlConds(fn)
+	for _, m := range inner {
+		for b := range m.body {
+			for _, in := range b.Instrs {
+				if mu, ok := in.(*ssa.MapUpdate); ok {
+					fl := valueFlow(mu.Value)
+					vals := valueFlow(mu.Value)
+					// the conditions that decide the store belong to the computation too
+					for _, c := range cc[b] {
+						if ci, ok := c.(ssa.Instruction); ok && outer.body[ci.Block()] {
+							for v := range valueFlow(c) {
+								fl[v] = true
+							}
+						}
+					}
+					upds = append(upds, upd{mu, fl, vals})
+				}
+			}
+		}
+	}
+	sortUpds := func() {
+		for i := range upds {
+			for j := i + 1; j < len(upds); j++ {
+				if upds[j].mu.Pos() < upds[i].mu.Pos() {
+					upds[i], upds[j] = upds[j], upds[i]
+				}
+			}
+		}
+	}
+	sortUpds()
+	// bind idDelta: per-segment element that is an operand (through conversions) of an addition in the flow of a stored value
+	delta := map[ssa.Value]bool{}
+	strip := func(v ssa.Value) ssa.Value {
+		for {
+			switch x := v.(type) {
+			case *ssa.Convert:
+				v = x.X
+			case *ssa.ChangeType:
+				v = x.X
+			default:
+				return v
+			}
+		}
+	}
+	for _, u := range upds {
+		for v := range u.vals {
+			bo, ok := v.(*ssa.BinOp)
+			if !ok || bo.Op != token.ADD {
+				continue
+			}
+			for _, op := range []ssa.Value{bo.X, bo.Y} {
+				if arr, ok := perSegment(strip(op)); ok {
+					delta[arr] = true
+				}
+			}
+		}
+	}
+	if len(delta) == 0 {
+		r.Fail("segdelta", r.MkKey("segdelta", name, "idDelta"), w.Pos(fn.Pos()), "no mapping loop adds a per-segment array element to the code: the idDelta cannot be bound", nil)
+		return
+	}
+	for _, u := range upds {
+		key := r.MkKey("segdelta", name, "glyph id stored by a mapping loop")
+		has := false
+		for v := range u.vals {
+			if arr, ok := perSegment(v); ok && delta[arr] {
+				has = true
+			}
+		}
+		if has {
+			r.OK("segdelta", key, w.Pos(u.mu.Pos()), "computed from the segment's idDelta")
+		} else {
+			r.Fail("segdelta", key, w.Pos(u.mu.Pos()), "the glyph id stored here is not computed from the segment's idDelta (the per-segment element the other mapping loop adds to the code): a segment that uses the glyph id array together with a non-zero idDelta decodes to glyph ids that differ from what the format defines (array value + idDelta modulo 65536 for non-zero array values)", nil)
+		}
+		// (b) sums involving the idDelta
+		fwd := map[ssa.Value]bool{}
+		var grow func(v ssa.Value)
+		grow = func(v ssa.Value) {
+			if fwd[v] {
+				return
+			}
+			fwd[v] = true
+			if refs := v.Referrers(); refs != nil {
+				for _, ref := range *refs {
+					if rv, ok := ref.(ssa.Value); ok && u.flow[rv] {
+						grow(rv)
+					}
+				}
+			}
+		}
+		for v := range u.flow {
+			if arr, ok := perSegment(v); ok && delta[arr] {
+				grow(v)
+			}
+		}
+		var sums []*ssa.BinOp
+		for v := range fwd {
+			if bo, ok := v.(*ssa.BinOp); ok && (bo.Op == token.ADD || bo.Op == token.SUB) {
+				sums = append(sums, bo)
+			}
+		}
+		for i := range sums {
+			for j := i + 1; j < len(sums); j++ {
+				if sums[j].Pos() < sums[i].Pos() {
+					sums[i], sums[j] = sums[j], sums[i]
+				}
+			}
+		}
+		for _, bo := range sums {
+			key := r.MkKey("mod65536", name, "sum involving the idDelta")
+			if typeBits(bo.Type()) <= 16 {
+				r.OK("mod65536", key, w.Pos(bo.Pos()), "computed in a 16-bit type")
+				continue
+			}
+			bad := wideUse(bo, map[ssa.Value]bool{})
+			if bad == nil {
+				r.OK("mod65536", key, w.Pos(bo.Pos()), "wider sum, reduced to 16 bits before any other use")
+			} else {
+				r.Fail("mod65536", key, w.Pos(bo.Pos()), fmt.Sprintf("this sum is computed in %s and used at %s before it is reduced to 16 bits: glyph ids that wrap modulo 65536 (code + idDelta >= 65536) are decoded differently from what the format defines", bo.Type(), w.Pos(bad.Pos())), nil)
+			}
+		}
+	}
+	r.Floor("segdelta", 2)
+	r.Floor("mod65536", 1)
+}
+
+// wideUse: an instruction that uses the wide value v other than by reducing
+// it to at most 16 bits (directly, or after further arithmetic / a mask).
+func wideUse(v ssa.Value, seen map[ssa.Value]bool) ssa.Instruction {
+	if seen[v] {
+		return nil
+	}
+	seen[v] = true
+	refs := v.Referrers()
+	if refs == nil {
+		return nil
+	}
+	for _, ref := range *refs {
+		switch x := ref.(type) {
+		case *ssa.Convert:
+			if typeBits(x.Type()) <= 16 {
+				continue
+			}
+			if bad := wideUse(x, seen); bad != nil {
+				return bad
+			}
+		case *ssa.ChangeType:
+			if bad := wideUse(x, seen); bad != nil {
+				return bad
+			}
+		case *ssa.Phi:
+			if bad := wideUse(x, seen); bad != nil {
+				return bad
+			}
+		case *ssa.BinOp:
+			switch x.Op {
+			case token.ADD, token.SUB, token.AND, token.REM:
+				if bad := wideUse(x, seen); bad != nil {
+					return bad
+				}
+			default:
+				return x
+			}
+		case *ssa.DebugRef:
+		default:
+			return ref
+		}
+	}
+	return nil
+}
